@@ -404,6 +404,7 @@ def run(ctx):
         "index tables cover -1..nsites and the coordinate box enlarged by one in every direction. "
         "non-trivial = lattice with more than one site" % ("5" if ctx.thorough else "5 (4 on 3 axes)", *(("6", "6") if ctx.thorough else ("5", "5"))))
     ctx.lib(["Lattice/LatCheck"] + PROOF_TARGETS)
+    ctx.log("library built")
     try:
         import lattice as gen_lattice
         have_gen = True
@@ -418,6 +419,7 @@ def run(ctx):
         else:
             ctx.oblige("props:C14", "theorem", False, "not compiled: translator failed")
 
+    ctx.log("translator + property theorems compiled")
     cases = []
 
     def add(t, desc, nt):
@@ -491,6 +493,7 @@ def run(ctx):
             add("CEdge %s %s %s" % (ct.z(s0), ct.z(s1), ct.lst(tab)), {"lattice": d, "op": "edge_to_odd_face_index"}, nt)
             edge_oracle(ctx, d, latt, coords)
 
+    ctx.log("implementation run and oracles done: %d cases" % len(cases))
     dis = ctx.cases("lattice", HEADER, cases)
     for i, dsc in dis[:8]:
         ctx.log("model/impl disagree on", dsc)
